@@ -283,6 +283,16 @@ def check_conversions(env, acc):
             acc.violation("db_decimal_round_trip", {"db": db, "seed": env.seed}, {"decimal": d})
         if abs(d - (1 - 10 ** (-abs(db) / 10))) > 1e-15:
             acc.violation("db_to_decimal_formula", {"db": db, "seed": env.seed}, None)
+    # large losses: 1 - 10**(-dB/10) is within a few ulp of 1, so the way back is ill-conditioned (0.05 dB at 140 dB);
+    # what must hold is that the conversion does not saturate: tolerance 0.1 dB, and the values keep increasing
+    prev = -1.0
+    for db in (60, 90, 100, 110, 119, 120, 121, 125, 130, 135, 140):
+        acc.tick("executions"); acc.tick("transitions")
+        d = lw.db_loss_to_decimal(db)
+        back = lw.decimal_to_db_loss(d) if d < 1 else None
+        if back is None or abs(back - db) > 0.1 or not back > prev:
+            acc.violation("db_decimal_round_trip", {"db": db, "seed": env.seed}, {"decimal": repr(d), "back": back})
+        prev = back if back is not None else prev
     for bad in (1, 1.5, -0.1):
         try:
             lw.decimal_to_db_loss(bad)
